@@ -181,6 +181,33 @@ pub fn guard<T>(f: impl FnOnce() -> T) -> Result<T, String> {
 
 /// Normalise a panic message into a short stable kind (drops numbers that vary with the input).
 pub fn panic_kind(msg: &str) -> String {
+    // drop quoted input fragments (`...`, "...", '...') and numbers: they vary with the input
+    let mut stripped = String::new();
+    let mut quote: Option<char> = None;
+    let tail_at = msg.rfind(" @ ").unwrap_or(msg.len());
+    for (i, c) in msg.char_indices() {
+        if i >= tail_at {
+            stripped.push(c);
+            continue;
+        }
+        match quote {
+            Some(q) => {
+                if c == q {
+                    quote = None;
+                    stripped.push('_');
+                }
+            }
+            None => {
+                if c == '`' || c == '"' {
+                    quote = Some(c);
+                } else {
+                    stripped.push(c);
+                }
+            }
+        }
+    }
+    let msg = if quote.is_some() { msg.to_string() } else { stripped };
+    let msg = msg.as_str();
     let mut out = String::new();
     let mut last_digit = false;
     for c in msg.chars() {
@@ -239,6 +266,8 @@ pub struct WorkerArgs {
     pub careful: bool,
     pub single: Option<u64>,
     pub budget_ms: Option<u64>,
+    /// indexes not to run (elements already attributed a hang / crash)
+    pub skip: Vec<u64>,
 }
 
 pub fn worker(prop: &dyn Property, a: WorkerArgs) -> i32 {
@@ -304,6 +333,10 @@ pub fn worker(prop: &dyn Property, a: WorkerArgs) -> i32 {
         }
     }
     while idx < size {
+        if a.skip.contains(&idx) {
+            idx += a.nshards;
+            continue;
+        }
         if let Err(m) = run_one(idx, &mut cx) {
             emit(&json!({"t":"machinery","i":idx,"msg":m, "desc": prop.describe(a.tier, idx)}));
             return 2;
@@ -395,7 +428,7 @@ impl Agg {
 
 enum WorkerEnd {
     Done,
-    Hang(u64),
+    Hang(u64, Option<u64>),
     Crash { last_progress: Option<u64>, last_at: Option<u64>, status: String },
     Machinery(String),
 }
@@ -415,6 +448,9 @@ fn spawn_worker(id: &str, a: &WorkerArgs) -> std::process::Child {
     }
     if let Some(b) = a.budget_ms {
         cmd.arg("--budget").arg(b.to_string());
+    }
+    if !a.skip.is_empty() {
+        cmd.arg("--skip").arg(a.skip.iter().map(|x| x.to_string()).collect::<Vec<_>>().join(","));
     }
     cmd.env("RUST_BACKTRACE", "0").env("RUST_LIB_BACKTRACE", "0");
     cmd.stdin(Stdio::null()).stdout(Stdio::piped()).stderr(Stdio::null());
@@ -445,7 +481,7 @@ fn run_worker_to_end(id: &str, a: &WorkerArgs, agg: &Mutex<Agg>) -> WorkerEnd {
                 agg.lock().unwrap().absorb(&rec);
                 end = Some(WorkerEnd::Done);
             }
-            "hang" => end = Some(WorkerEnd::Hang(rec["i"].as_u64().unwrap_or(0))),
+            "hang" => end = Some(WorkerEnd::Hang(rec["i"].as_u64().unwrap_or(0), last_progress)),
             "machinery" => end = Some(WorkerEnd::Machinery(format!("{}", rec))),
             _ => {}
         }
@@ -463,18 +499,19 @@ fn run_shard(prop: &dyn Property, tier: Tier, shard: u64, nshards: u64, agg: &Mu
     let mut from = 0u64;
     let mut careful = false;
     let mut careful_until: u64 = 0;
+    let mut skip: Vec<u64> = vec![];
     loop {
-        let a = WorkerArgs { tier, shard, nshards, from, careful, single: None, budget_ms: None };
+        let a = WorkerArgs { tier, shard, nshards, from, careful, single: None, budget_ms: None, skip: skip.clone() };
         match run_worker_to_end(id, &a, agg) {
             WorkerEnd::Done => return,
             WorkerEnd::Machinery(m) => {
                 agg.lock().unwrap().machinery.push(m);
                 return;
             }
-            WorkerEnd::Hang(idx) => {
+            WorkerEnd::Hang(idx, last_progress) => {
                 agg.lock().unwrap().restarts += 1;
                 // confirm in a fresh process with a large budget
-                let c = WorkerArgs { tier, shard: 0, nshards: 1, from: 0, careful: false, single: Some(idx), budget_ms: Some(6000) };
+                let c = WorkerArgs { tier, shard: 0, nshards: 1, from: 0, careful: false, single: Some(idx), budget_ms: Some(6000), skip: vec![] };
                 let confirm_agg = Mutex::new(Agg::default());
                 match run_worker_to_end(id, &c, &confirm_agg) {
                     WorkerEnd::Done => {
@@ -489,7 +526,7 @@ fn run_shard(prop: &dyn Property, tier: Tier, shard: u64, nshards: u64, agg: &Mu
                             g.add_violation(v);
                         }
                     }
-                    WorkerEnd::Hang(_) => {
+                    WorkerEnd::Hang(..) => {
                         record_crash(prop, tier, idx, "hang", agg);
                     }
                     WorkerEnd::Crash { .. } => {
@@ -499,7 +536,9 @@ fn run_shard(prop: &dyn Property, tier: Tier, shard: u64, nshards: u64, agg: &Mu
                         agg.lock().unwrap().machinery.push(m);
                     }
                 }
-                from = idx + 1;
+                // results since the last delivered progress mark were lost with the worker: redo them, skipping idx
+                skip.push(idx);
+                from = last_progress.map(|p| p + 1).unwrap_or(from);
             }
             WorkerEnd::Crash { last_progress, last_at, status } => {
                 agg.lock().unwrap().restarts += 1;
@@ -507,7 +546,8 @@ fn run_shard(prop: &dyn Property, tier: Tier, shard: u64, nshards: u64, agg: &Mu
                     match last_at {
                         Some(idx) => {
                             record_crash(prop, tier, idx, "abort", agg);
-                            from = idx + 1;
+                            skip.push(idx);
+                            from = last_progress.map(|p| p + 1).unwrap_or(from);
                             if from > careful_until {
                                 careful = false;
                             }
